@@ -35,6 +35,8 @@ def kernel_funcs(repo):
 def run_kernel(repo, name, args):
     I = Interp(repo)
     out = I.call(repo.func('fitting_routines', name), args)
+    if I.lost and not isinstance(out, Unk):
+        out = Unk('a call made by %s for its effect was not modelled (%s): the value returned is not all it computes' % (name, str(I.lost[0])[:100]))
     return I, out
 
 
